@@ -29,6 +29,18 @@ def load():
     return out
 
 
+def load_refactors():
+    """behaviour-preserving refactorings written by independent sub-agents (selftest/refactors): every check must stay silent on them"""
+    out = []
+    rd = os.path.join(VERIF, "selftest", "refactors")
+    if os.path.isdir(rd):
+        for name in sorted(os.listdir(rd)):
+            pp = os.path.join(rd, name, "patch.diff")
+            if os.path.exists(pp):
+                out.append({"id": "refactor-" + name, "prop": None, "expect": None, "patch": pp, "edits": [], "negative": True})
+    return out
+
+
 def apply(root, m):
     """returns None if applied, else reason"""
     if m.get("patch"):
@@ -54,6 +66,8 @@ def apply(root, m):
 
 def run(args):
     muts = [m for m in load() if (not args.prop or m["prop"] == args.prop) and (not args.id or args.id in m["id"])]
+    if args.prop and not args.no_refactors:
+        muts += [dict(r, prop=args.prop) for r in load_refactors() if not args.id or args.id in r["id"]]
     if not muts:
         print("no mutants selected"); return 0
     scratch = tempfile.mkdtemp(prefix="selium-mut-", dir=os.environ.get("VERIF_SCRATCH", "/tmp"))
@@ -83,10 +97,12 @@ def run(args):
             fired = [l for l in out.splitlines() if l.startswith("VIOLATION")]
             rules = re.findall(r"^\S+: (C\d+\.[\w.\-]+|anchor|driver|internal): ", out, re.M)
             status = "caught" if fired else "MISSED"
+            if m.get("negative"):
+                status = "FALSE-ALARM" if fired else "silent"
             if "driver-error" in out or "driver:" in out and "fact extraction failed" in out:
                 status = "invalid(does not compile)"
             exp = m.get("expect")
-            if fired and exp and not any(x.startswith(exp) for x in rules):
+            if fired and exp and not m.get("negative") and not any(x.startswith(exp) for x in rules):
                 status = "caught-by-other-rule"
             results.append({"id": m["id"], "prop": m["prop"], "status": status, "rules": sorted(set(rules)), "expect": exp, "s": round(time.time() - t0, 1)})
             print("%-6s %-44s expect=%s got=%s (%.1fs)" % (status, m["id"], exp, sorted(set(rules))[:4], time.time() - t0))
@@ -102,12 +118,15 @@ def run(args):
     os.makedirs(os.path.join(VERIF, "selftest", "results"), exist_ok=True)
     tag = args.prop or "all"
     json.dump(results, open(os.path.join(VERIF, "selftest", "results", tag + ".json"), "w"), indent=1)
-    missed = [r for r in results if r["status"] in ("MISSED",)]
-    print("%d mutants: %d caught, %d missed, %d skipped/invalid" % (len(results), sum(r["status"].startswith("caught") for r in results), len(missed), sum(r["status"] not in ("caught", "MISSED", "caught-by-other-rule") for r in results)))
+    missed = [r for r in results if r["status"] in ("MISSED", "FALSE-ALARM")]
+    print("%d mutants: %d caught, %d missed, %d refactorings silent, %d false alarms, %d skipped/invalid" % (
+        len(results), sum(r["status"].startswith("caught") for r in results), sum(r["status"] == "MISSED" for r in results),
+        sum(r["status"] == "silent" for r in results), sum(r["status"] == "FALSE-ALARM" for r in results),
+        sum(r["status"] not in ("caught", "MISSED", "caught-by-other-rule", "silent", "FALSE-ALARM") for r in results)))
     return 1 if missed else 0
 
 
 if __name__ == "__main__":
     ap = argparse.ArgumentParser()
-    ap.add_argument("--prop"); ap.add_argument("--id"); ap.add_argument("--keep", action="store_true"); ap.add_argument("--pristine", action="store_true"); ap.add_argument("--quiet", action="store_true")
+    ap.add_argument("--prop"); ap.add_argument("--id"); ap.add_argument("--keep", action="store_true"); ap.add_argument("--pristine", action="store_true"); ap.add_argument("--quiet", action="store_true"); ap.add_argument("--no-refactors", action="store_true")
     sys.exit(run(ap.parse_args()))
